@@ -15,16 +15,16 @@ V = os.path.dirname(os.path.dirname(os.path.abspath(__file__)))
 ENV = dict(os.environ, GOFLAGS="-mod=mod", GOPROXY="off", GOTOOLCHAIN="auto")
 OUT = os.path.join(V, "selftest", "mutsweep.jsonl")
 
-ZONE = ["C01", "C03", "C05", "C04", "C14", "C15", "C12", "C02", "C19", "C13", "C10", "C09", "C06", "C07"]
+ZONE = ["C15", "C12", "C02", "C19", "C03", "C01", "C04", "C05", "C14", "C10"]
 CHECKS = {
     "src/anonymizer.go": ZONE,
-    "src/operators.go": ["C01", "C03", "C05", "C04", "C14", "C15", "C12", "C02", "C07"],
-    "src/helpers.go": ["C03", "C04", "C13", "C15", "C12", "C01", "C05", "C19", "C06", "C07", "C11", "C14"],
-    "src/constants.go": ["C05", "C19", "C01", "C02", "C10"],
-    "src/reader.go": ["C06", "C08", "C07", "C16", "C17"],
+    "src/operators.go": ["C03", "C01", "C05", "C04", "C14", "C15", "C12"],
+    "src/helpers.go": ["C15", "C12", "C13", "C03", "C04", "C19", "C06", "C01", "C05", "C11", "C07"],
+    "src/constants.go": ["C05", "C19", "C02", "C10", "C01"],
+    "src/reader.go": ["C16", "C17", "C06", "C08", "C07"],
     "src/atlas.go": ["C16", "C17", "C20", "C18"],
-    "src/encryption.go": ["C09", "C10", "C11"],
-    "src/main.go": ["C18", "C11", "C01", "C05", "C06", "C16", "C17", "C20", "C09", "C14", "C15", "C12", "C13", "C08", "C10", "C19", "C07"],
+    "src/encryption.go": ["C11", "C09", "C10"],
+    "src/main.go": ["C11", "C16", "C17", "C20", "C18", "C06", "C09", "C01"],
 }
 
 lock = threading.Lock()
